@@ -39,7 +39,7 @@ ASSUMPTIONS = [
     "only the clauses that meet nondeterminism or faults are claimed; 'position exists in the file' and 'no rule crashes on any document' are input-quantified and not decided here",
     "worlds differ only in nondeterminism the code does not control; everything else (documents, names, flags) is identical",
 ]
-PROBES = ["positions_checked", "worlds_compared", "failure_blocks_checked", "wrapped_checked", "mode:scan", "mode:fix", "rules:alone", "rules:all", "multi_rule_same_position"]
+PROBES = ["probe_chain_scenarios", "positions_checked", "worlds_compared", "failure_blocks_checked", "wrapped_checked", "mode:scan", "mode:fix", "rules:alone", "rules:all", "multi_rule_same_position"]
 
 
 def generate(rng, tier, index):
@@ -73,6 +73,18 @@ def generate(rng, tier, index):
     if rng.random() < 0.5:
         flags = ["--continue-on-error"] + flags
     use_dir = rng.random() < 0.3
+    chain = rng.random() < 0.15
+    if chain:
+        # three probe rules at ONE fix level whose line fixes do not commute; the
+        # order of the --add-plugin arguments is a world parameter
+        from .. import corpus
+
+        pool = corpus.load()
+        mode = "fix" if rng.random() < 0.8 else "scan"
+        for position in range(len(docs)):
+            name = rng.choice(["vp_line", "vp_line_last", "vp_both", "vp_and_builtin"])
+            docs[position] = (name, pool[name].data)
+        files, labels = workload.assign_names(rng, docs)
     worlds = []
     for _ in range(4):
         worlds.append({"cls": [rng.choice(HASH_CLASSES), "utf8"], "world": workload.draw_world(rng), "perm": rng.randrange(1 << 20)})
@@ -87,6 +99,7 @@ def generate(rng, tier, index):
         "use_dir": use_dir,
         "worlds": worlds,
         "fault": [rng.random(), rng.choice(["raise", "raise_after"]), rng.choice(["RuntimeError", "IndexError", "AssertionError", "KeyError", "TypeError"])],
+        "chain": chain,
     }
 
 
@@ -108,11 +121,17 @@ def _request(sc, world, builtin_ids, plan=None, record_sites=False):
     else:
         tail = list(names)
         random.Random(world["perm"]).shuffle(tail)
+    op = {"kind": "cli", "argv": _flags(sc, builtin_ids) + [sc["mode"]] + tail}
+    if sc.get("chain"):
+        order = ["aaa000", "md016", "zzz999"]
+        random.Random(world["perm"] + 7).shuffle(order)
+        op["argv"] = workload.probe_flags(order) + op["argv"]
+        op["probes"] = {pid: {"fix": True, "level": 0, "chain": True} for pid in order}
     request = {
         "files": sc["files"],
         "world": world["world"],
         "cpu": 60,
-        "ops": [{"kind": "cli", "argv": _flags(sc, builtin_ids) + [sc["mode"]] + tail}],
+        "ops": [op],
     }
     if plan:
         request["plan"] = plan
@@ -247,6 +266,8 @@ def evaluate(sc):
                     out.append(violation("C07/wrapped", "C07/wrapped|exit=%s" % view.exit, {"plan": plan, "exit": view.exit}))
     stats["mode:" + sc["mode"]] += 1
     stats["rules:" + sc["selection"]] += 1
+    if sc.get("chain"):
+        stats["probe_chain_scenarios"] += 1
     return {"violations": out, "evals": 0, "digests": [(value, nontrivial)], "stats": dict(stats), "faults": faults}
 
 
